@@ -1,3 +1,5 @@
+//go:build verif && (all || c26)
+
 package main
 
 import (
